@@ -501,10 +501,10 @@ pub fn run_one(run: u64, seed: u64, opts: &Opts) -> RunOut {
             let rl_b = Arc::new(Mutex::new(RecvLog::default()));
             let rl_a = Arc::new(Mutex::new(RecvLog::default()));
             let base = (i as u64) << 32;
-            let st1 = tokio::spawn(sender_task(tx_a, s_ab.clone(), base | (1 << 24), cfg_b.max_data_size, sl_ab.clone()));
-            let st2 = tokio::spawn(sender_task(tx_b, s_ba.clone(), base | (2 << 24), cfg_a.max_data_size, sl_ba.clone()));
-            let rt1 = tokio::spawn(receiver_task(rx_b, *m_b, rl_b.clone()));
-            let rt2 = tokio::spawn(receiver_task(rx_a, *m_a, rl_a.clone()));
+            let st1 = crate::sched::spawn(sender_task(tx_a, s_ab.clone(), base | (1 << 24), cfg_b.max_data_size, sl_ab.clone()));
+            let st2 = crate::sched::spawn(sender_task(tx_b, s_ba.clone(), base | (2 << 24), cfg_a.max_data_size, sl_ba.clone()));
+            let rt1 = crate::sched::spawn(receiver_task(rx_b, *m_b, rl_b.clone()));
+            let rt2 = crate::sched::spawn(receiver_task(rx_a, *m_a, rl_a.clone()));
             logs.push((sl_ab, rl_b, *m_b, cfg_b.max_data_size, format!("port{i} A>B")));
             logs.push((sl_ba, rl_a, *m_a, cfg_a.max_data_size, format!("port{i} B>A")));
             tasks.push((st1, rt1));
